@@ -38,6 +38,7 @@ type shadowConn struct {
 	sid     uint32 // 0 = not joined
 	pid     uint32
 	own     []uint32 // entity ids this connection was told it created (current participant)
+	prevOwn []uint32 // what it owned under its previous participant id (another session, or an earlier stay)
 	queued  int
 	pending bool // has a pose / component update waiting for a tick
 	pings   []uint32
@@ -120,7 +121,6 @@ func (g *Gen) learn(c *shadowConn, r *Req) {
 			if d.Conn == c.id {
 				g.left(c)
 				c.sid, c.pid = uint32(m[2]), uint32(m[4])
-				c.own = nil
 				c.pings = nil
 				c.latOn = false
 				g.session(c.sid).members[c.id] = true
@@ -167,6 +167,9 @@ func (g *Gen) left(c *shadowConn) {
 		}
 	}
 	c.sid, c.pid = 0, 0
+	if len(c.own) > 0 {
+		c.prevOwn = c.own
+	}
 	c.own = nil
 }
 
@@ -195,6 +198,12 @@ func (g *Gen) count(k string) { g.stats[k]++ }
 func (g *Gen) entityFor(c *shadowConn, ownPct int) uint32 {
 	s := g.session(c.sid)
 	x := g.r.intn(100)
+	// ids the connection owned before it switched sessions (or left and came back): what a client that has not
+	// noticed the switch, or a stale per-connection cache in the server, would still use
+	if len(c.prevOwn) > 0 && g.r.chance(12) {
+		g.count("entity:previously-owned")
+		return g.r.pick(c.prevOwn)
+	}
 	switch {
 	case x < ownPct && len(c.own) > 0:
 		return g.r.pick(c.own)
